@@ -457,7 +457,7 @@ def _check_half_window(half_window, allow_zero=False, two_d=False):
     output_half_window = _check_scalar_variable(
         half_window, allow_zero, variable_name='half_window', two_d=two_d, dtype=np.intp
     )
-    if not two_d and output_half_window != half_window:
+    if np.any(output_half_window != np.asarray(half_window).ravel()):
         raise TypeError('half_window must be an integer')
 
     return output_half_window
